@@ -166,9 +166,9 @@ CHECKS = {
         "of the statement (LoopsDecideTheRules) for every pair of definitions over names x majors 0..2 x minors x kinds x "
         "ports (none, 0, 5) x sealing x size classes, request and response separately. Every set is materialised in one "
         "namespace and read; accepted vs rejected-with-InvalidDefinitionError is compared with the declarative rules.",
-   note="Pairs exhaustively (69k), every chain of three (thorough: also one in six of the chains of four) minor versions under one major over kind x port x "
+   note="Pairs exhaustively (69k), every chain of three (thorough: four) minor versions under one major over kind x port x "
         "(half of the sets with several minors also renumbered order-preservingly to 0, 2, 9, 10, 11; half of the sets of two names also split over two root namespaces and read through read_files) " 
-        "sealing x size (29k / 45k), mixed triples sampled in the thorough tier. Violations located in lookup namespaces are covered "
+        "sealing x size (29k / 45k), mixed triples (1.3 * 10^7 states) are checked by TLC on the specification only - materialising them is not part of the registered runs. Violations located in lookup namespaces are covered "
         "by four fixed scope cases.",
    technique="TLA+ declarative rules vs pairwise loops checked by TLC; every set materialised and read",
    design="4 C11"),
